@@ -841,6 +841,24 @@ class Verifier(Stmts):
             ob.seconds = time.time() - t0
             return ob
         self.solver_calls += 1
+        # hint from the committed baseline: the stage that discharged this obligation last time is tried first (an ordering
+        # only: every stage is sound, and the full ladder follows if the hinted stage does not succeed)
+        hint = (getattr(self, 'stage_hints', None) or {}).get(ob.name, ())
+        if any(h.startswith('z3/instantiated') for h in hint):
+            try:
+                from .inst import instantiate
+                ghyps, core, n_inst, leftover = instantiate(ob.hyps, ob.goal)
+                with_q = any('+q' in h for h in hint) and leftover
+                ri, _si = self._try(ghyps + (leftover if with_q else []), core, 60000, rlimit=12000000)
+                if with_q:
+                    n_inst = -n_inst
+                if ri == z3.unsat:
+                    ob.status, ob.backend = 'discharged', 'z3/instantiated%s(%d)' % ('+q' if n_inst < 0 else '', abs(n_inst))
+                    ob.seconds = time.time() - t0
+                    self.solver_seconds += ob.seconds
+                    return ob
+            except z3.Z3Exception:
+                pass
         # 0. quantifier-free hypotheses only (most path obligations need nothing else; dropping hypotheses is sound)
         from .inst import _contains_quantifier
         qf = [h for h in ob.hyps if not _contains_quantifier(h)]
@@ -1027,8 +1045,9 @@ class Verifier(Stmts):
                             ob.status = 'unknown'
         ob.seconds = time.time() - t0
         self.solver_seconds += ob.seconds
-        if ob.status == 'discharged' and (ob.backend or '').startswith('z3'):
+        if ob.status == 'discharged' and (ob.backend or '').startswith('z3') and os.environ.get('VERIF_TIER_EFFECTIVE') == 'thorough':
             ob.proof_solver = getattr(self, '_last_proof', None)
+        self._last_proof = None
         return ob
 
     def second_opinion(self, timeout_ms=10000):
